@@ -1,7 +1,9 @@
 PROPERTY = "C03"
 LEVEL = "proof"
-LEAN_MODULES = ["CifModel.Props.C03"]
-REQUIRED = ["CifModel.C03_clamp", "CifModel.C03_report_site"]
+LEAN_MODULES = ["CifModel.Props.C03", "CifModel.Lemmas.ParserTop", "CifModel.Lemmas.ParserDetProd", "CifModel.Lemmas.ParserDetLex", "CifModel.Lemmas.ParserDet"]
+REQUIRED = ["CifModel.C03_total", "CifModel.C03_clamp", "CifModel.C03_report_site", "CifModel.C03_prefix_determinism", "CifModel.C03_result",
+            "CifModel.C03_reported_partial", "CifModel.C03_die_is_first", "CifModel.C03_accept_all", "CifModel.C03_codes_nonzero",
+            "CifModel.Model.Parser.parse_spec", "CifModel.Model.Parser.blocksLoop_det", "CifModel.Model.Lexer.nextToken_detl"]
 GEN = ["ErrCodes", "CharClass", "ParseConsts"]
 FAMILIES = ["parse", "parsebytes"]
 TRUSTED_BASE = [
@@ -23,7 +25,20 @@ ASSUMPTIONS = [
     "observable except the identity of such a unit inside a delimited string)",
     "names are normalised by a parameter `norm`; the driver instantiates ASCII case folding (exact for the generated alphabets)",
 ]
-PARTIAL = []
+PARTIAL = [
+    "C03_reported is proved as C03_reported_partial: a failure whose value is not one of the five codes the model can return on its "
+    "own (CIF_INTERNAL_ERROR, CIF_INVALID_INDEX, CIF_INVALID_ITEMNAME, CIF_DUP_ITEMNAME from cif_packet_create, the model's out-of-fuel "
+    "marker) has reported at least one error.  Missing for C03_reported_full: that those `fail` sites are unreachable (INTERNAL_ERROR, "
+    "cif_packet_create codes: needs the invariant that retained loop-header names are valid and distinct) or preceded by a report "
+    "(INVALID_INDEX: needs the scanner fact that every disallowed unit of a token text was reported).  Observed instead by the "
+    "oracle of family `parse` on every request (never fails without a report).",
+    "C03_total: totality is by construction (Lean's termination check); the fuel-suffices lemma (the out-of-fuel marker 1001 is never "
+    "the result for the fuel 2*|input|+16 that `parse` passes) is NOT proved — 1001 has never been observed in the correspondence.",
+    "C03_callback_lines (every report has line >= 1) is not proved; checked by the oracle on every report of every request.",
+    "C03_consistent_after (store invariant) is not stated in Lean: the model stores into the abstract data model; the executor "
+    "walks, writes, modifies and destroys the real CIF after every parse under ASan/UBSan.",
+    "memory safety, undefined behaviour and byte decoding of the C are runtime-observed only (families parse and parsebytes).",
+]
 LEVEL_TEXT = ("Theorems about the executable integrated parser model (every input string, every option record, every callback "
               "policy as an arbitrary function of invocation index and report) + differential correspondence of the model with "
               "the real cif_parse_internal on a malformed stream, with an implementation-level oracle that restates C03.")
